@@ -12,7 +12,7 @@ From Coq Require Import List ZArith NArith Bool.
 From BBS Require Import Common.Sx Buffer.Source Buffer.Validate Buffer.Convert Buffer.ErrHandler
   Buffer.StreamProofs Buffer.ValidateProofs Buffer.ErrHandlerProofs Buffer.ClosedOnceProofs
   Buffer.ErrHandlerStackProofs Buffer.StackRuleProofs Buffer.ValidateReaderProofs Buffer.ConvertProofs
-  Buffer.EHFullCarry Buffer.EHFullReader Buffer.EHFullMethods Buffer.EHFullStack Buffer.EHFullPrefix Buffer.EHFullExact Buffer.EHFullMon Run.R09 Run.R16 Run.R16Proofs.
+  Buffer.EHFullCarry Buffer.EHFullReader Buffer.EHFullMethods Buffer.EHFullStack Buffer.EHFullPrefix Buffer.EHFullExact Buffer.EHFullStackExact Buffer.EHFullMon Run.R09 Run.R16 Run.R16Proofs.
 Import ListNotations.
 Open Scope N_scope.
 
@@ -173,6 +173,39 @@ Theorem error_handling_reader_stream : forall fuel b h out e r',
                   h_log (er_h r') = h_log h ++ map HOnError offered.
 Proof. exact ehr_stream_is_stitch. Qed.
 Print Assumptions error_handling_reader_stream.
+
+(** * Stacks in closed form: the FLATTENED model of nested error-handling
+    readers ([sch_read] / [shr_read]: one plain reader below the active levels,
+    [escalate] passes an error upwards, a replacing level finishes the levels
+    below it) IS the LEVEL-WISE specification [stitch_stack] (Run/R16.v) the
+    monitor evaluates: level l+1 takes the whole stream of level l as its base
+    and consults its own script when that stream fails.  [w]: the world after
+    the handlers have been applied ([w_act w]: the active levels, innermost
+    first, any number >= 1); [oel h]: the OnError arguments handler [h] has
+    received; the streams, the final error and EVERY level's OnError log are
+    those of [stitch_stack] ([zipo]: each active level's log grows by its list
+    of offers).  Well-formed buffers, no fuel exhaustion, any depth. *)
+Theorem stack_chunk_stream_is_the_level_wise_specification : forall ifuel fuel max b w out e r',
+  drains (sch_read ifuel fuel max) (sch_init ifuel b w) out e r' ->
+  wf_buf b -> hs_wf (w_act w) -> w_act w <> [] ->
+  e <> EFuel -> Forall (fun h => ~ In EFuel (oel h)) (lv (sc_w r')) ->
+  exists offss,
+    (let '(p, t) := piece_of b 0 in stitch_stack p t (map h_answers (w_act w))) = (out, e, offss) /\
+    oews (sc_w r') = map oel (w_dn w) ++ zipo (map oel (w_act w)) offss /\
+    length offss = length (w_act w).
+Proof. exact stack_chunk_stream_is_stitch_stack. Qed.
+Print Assumptions stack_chunk_stream_is_the_level_wise_specification.
+
+Theorem stack_reader_stream_is_the_level_wise_specification : forall fuel b w out e r',
+  rdrains (shr_read fuel) (shr_init fuel b w) out e r' ->
+  wf_buf b -> hs_wf (w_act w) -> w_act w <> [] ->
+  e <> EFuel -> Forall (fun h => ~ In EFuel (oel h)) (lv (sr_w r')) ->
+  exists offss,
+    (let '(p, t) := piece_of b 0 in stitch_stack p t (map h_answers (w_act w))) = (out, e, offss) /\
+    oews (sr_w r') = map oel (w_dn w) ++ zipo (map oel (w_act w)) offss /\
+    length offss = length (w_act w).
+Proof. exact stack_reader_stream_is_stitch_stack. Qed.
+Print Assumptions stack_reader_stream_is_the_level_wise_specification.
 
 (** * Every consumption method.  If the buffer handed to WithErrorHandler and
     every replacement buffer the handler supplies carry the object [C], then a
@@ -493,3 +526,21 @@ Example c16_prefix_on_failure :
             (MToChunkReader 0 1 0)
   = mkOut16s [1; 2] (ECode 13) [] [false] [[HOnError (ECode 14); HDone]] [1%nat; 1%nat] [].
 Proof. vm_compute. reflexivity. Qed.
+
+(** Non-vacuity of the closed form for stacks: three levels over a chunk-reader
+    buffer; the innermost gives up (7), the middle one replaces, its replacement
+    fails too, the middle one then gives up (8), the outermost replaces with a
+    byte slice: [stitch_stack] yields the stream 1,2,3 and, per level, the
+    errors it is offered. *)
+Example c16_stitch_stack_instance :
+  let b0 := BChunk [Chunk [1]; Err 14] in
+  let anss := [[Fail 7]; [Replace (BReader [Chunk [1; 2]; Err 15] false); Fail 8]; [Replace (BBytes [1; 2; 3])]] in
+  (let '(p, t) := piece_of b0 0 in stitch_stack p t anss)
+  = ([1; 2; 3], EEof, [[ECode 14]; [ECode 7; ECode 15]; [ECode 8]]) /\
+  let H := lookup [([1; 2; 3], [9; 9])] in
+  let cfg := mkVcfg [9; 9] 3 13 in
+  run_stack H cfg 80 b0 anss MIntoWriter
+  = mkOut16s [1; 2; 3] ENone [] [true]
+      [[HOnError (ECode 14); HDone]; [HOnError (ECode 7); HOnError (ECode 15); HDone]; [HOnError (ECode 8); HDone]]
+      [1%nat; 1%nat] [].
+Proof. vm_compute. auto. Qed.
